@@ -402,6 +402,16 @@ let run () =
                 | "sharddraws" -> shard_draws := !shard_draws @ lst v
                 | _ -> ())
            done
+         | "hardlink" ->
+           let a = path_of_string f.(1) and b = path_of_string f.(2) in
+           mkdirs (List.rev (List.tl (List.rev b)));
+           let fs = !world.w_fs in
+           (match name_of fs a with
+            | Some i -> (match inode_of fs i with
+                | Some x -> let fs1 = set_inode fs i { x with i_nlink = S x.i_nlink } in
+                  world := { !world with w_fs = set_names fs1 ((b, i) :: List.filter (fun (q, _) -> q <> b) fs1.names) }
+                | None -> ())
+            | None -> ())
          | "snap" -> snapshot ()
          | "budgets" -> pf "BUDGET get=%s touch=%s write=%s\n" (string_of_z (stack_get_budget (cfg 0))) (string_of_z (stack_touch_budget (cfg 0))) (string_of_z (stack_write_budget (cfg 0)))
          | "sleep" -> ()
@@ -474,6 +484,10 @@ let run () =
                let chunks = if Array.length f > 7 then int_of_string f.(7) else 1 in
                let src = [cs "stage"; cs (Printf.sprintf "src%s%d" !stage_tag !stage_ctr)] in
                let (r, e) = run_prog (client_set_path (kind = "set") (cfg h) (key 3) src mode666 (chunks_of (expand f.(6)) chunks)) o in
+               evs_all := e; unit_line r src
+             | "set_path" | "put_path" ->
+               let src = path_of_string f.(6) in
+               let (r, e) = run_prog (if kind = "set_path" then cache_set (cfg h) (key 3) src else cache_put (cfg h) (key 3) src) o in
                evs_all := e; unit_line r src
              | "pset" | "pput" | "sset" | "sput" ->
                incr stage_ctr;
